@@ -64,6 +64,47 @@ def written_members(f, rec):
     return out
 
 
+def reset_coverage(rep, fb, rule, only=None):
+    """every member of the engines that is run state (written by step() or another mutator and read by step()) is re-initialised
+    by reset(); `only` restricts the reported members (C02 shares the rule for configuration and history)"""
+    for eq in ENGINES:
+        f = fb.fn(eq)
+        cls = f.rec
+        eng = cls.split('::')[-1]
+        wr = written_members(f, cls)
+        rs = fb.fn(cls + '::reset')
+        rwr = written_members(rs, cls)
+        # scratch: cleared at the top of step (the clear dominates every other use)
+        g = cfgm.CFG(f)
+        dom = g.dominators()
+        scratch = set()
+        for name, first in wr.items():
+            clears = [n for n in f.walk() if n['k'] == 'CXXMemberCallExpr' and n['callee']['q'].split('::')[-1] in ('clear', 'reset') and n.get('c') and any(
+                x['k'] == 'MemberExpr' and x['ref'].get('name') == name for x in sub(n['c'][0]))]
+            uses = [n for n in f.walk() if n['k'] == 'MemberExpr' and n['ref'].get('name') == name and n['ref'].get('rec') == cls]
+            for cl in clears:
+                if all(any(x is u for x in sub(cl)) or g.dominates(cl['id'], u['id'], dom) or u['id'] not in g.pos and _enclosing_pos(f, g, u) and g.dominates(cl['id'], _enclosing_pos(f, g, u), dom) for u in uses):
+                    scratch.add(name)
+        exempt = {'_event': 'assigned from the dequeue callbacks before it is read in every step',
+                  '_isInitialized': 'set by init(); a reset engine is re-initialised through InterpreterImpl::init',
+                  '_exitSets': 'lazily filled cache that is a function of the document only',
+                  '_exitSetCache': 'lazily filled cache that is a function of the document only'}
+        # run state that other mutators of the engine write and step() reads (e.g. the cancel request)
+        read_by_step = {n['ref'].get('name') for n in f.walk() if n['k'] == 'MemberExpr' and n['ref'].get('rec') == cls}
+        for m in [f_ for f_ in fb.funcs.values() if f_.rec == cls]:
+            mname = m.q.split('::')[-1]
+            if m is f or mname in ('reset', 'init', 'deserialize', eng, '~' + eng) or mname.startswith('operator'):
+                continue
+            for name, node in written_members(m, cls).items():
+                if name in read_by_step and name not in wr:
+                    wr[name] = node
+        persistent = sorted(set(wr) - scratch - set(exempt))
+        rep.minimum(rule, len(persistent), 5, 'persistent run-state members of ' + eng)
+        for name in [x for x in persistent if only is None or x in only]:
+            rep.check(name in rwr, rule, '%s|%s' % (eng, name), locstr(wr[name]), 'member %s is run state (written by step() or another mutator, read by step()) and %s by reset()' % (name, 're-initialised' if name in rwr else 'NOT re-initialised'))
+        rep.sample({'engine': eng, 'persistent': persistent, 'scratch_cleared_at_top': sorted(scratch), 'reset_writes': sorted(rwr)})
+
+
 def run(rep, tier):
     rep.rule('R10.1', 'life-cycle automaton from the exact _flags relation of both engines: FINISHED absorbing; CANCELLED only under the cancel mark and sets TOP_LEVEL_FINAL; TOP_LEVEL_FINAL is followed by exactly one finalising step (completion bracket, exit handlers, FINISHED set); IDLE only when STABLE; PRISTINE leads to the initial micro-step; InterpreterImpl::step returns INITIALIZED once without delegating')
     rep.rule('R10.2', 'API safe before the first step: in receive/cancel/reset/destructor every use of a facade handle that init() creates is guarded by the handle test or preceded by init() / on-demand creation on every path')
@@ -212,42 +253,7 @@ def run(rep, tier):
     rep.minimum('R10.2', nuses, 5, 'handle uses in the pre-init API entries')
 
     # ---- R10.3
-    for eq in ENGINES:
-        f = fb.fn(eq)
-        cls = f.rec
-        eng = cls.split('::')[-1]
-        wr = written_members(f, cls)
-        rs = fb.fn(cls + '::reset')
-        rwr = written_members(rs, cls)
-        # scratch: cleared at the top of step (the clear dominates every other use)
-        g = cfgm.CFG(f)
-        dom = g.dominators()
-        scratch = set()
-        for name, first in wr.items():
-            clears = [n for n in f.walk() if n['k'] == 'CXXMemberCallExpr' and n['callee']['q'].split('::')[-1] in ('clear', 'reset') and n.get('c') and any(
-                x['k'] == 'MemberExpr' and x['ref'].get('name') == name for x in sub(n['c'][0]))]
-            uses = [n for n in f.walk() if n['k'] == 'MemberExpr' and n['ref'].get('name') == name and n['ref'].get('rec') == cls]
-            for cl in clears:
-                if all(any(x is u for x in sub(cl)) or g.dominates(cl['id'], u['id'], dom) or u['id'] not in g.pos and _enclosing_pos(f, g, u) and g.dominates(cl['id'], _enclosing_pos(f, g, u), dom) for u in uses):
-                    scratch.add(name)
-        exempt = {'_event': 'assigned from the dequeue callbacks before it is read in every step',
-                  '_isInitialized': 'set by init(); a reset engine is re-initialised through InterpreterImpl::init',
-                  '_exitSets': 'lazily filled cache that is a function of the document only',
-                  '_exitSetCache': 'lazily filled cache that is a function of the document only'}
-        # run state that other mutators of the engine write and step() reads (e.g. the cancel request)
-        read_by_step = {n['ref'].get('name') for n in f.walk() if n['k'] == 'MemberExpr' and n['ref'].get('rec') == cls}
-        for m in [f_ for f_ in fb.funcs.values() if f_.rec == cls]:
-            mname = m.q.split('::')[-1]
-            if m is f or mname in ('reset', 'init', 'deserialize', eng, '~' + eng) or mname.startswith('operator'):
-                continue
-            for name, node in written_members(m, cls).items():
-                if name in read_by_step and name not in wr:
-                    wr[name] = node
-        persistent = sorted(set(wr) - scratch - set(exempt))
-        rep.minimum('R10.3', len(persistent), 5, 'persistent run-state members of ' + eng)
-        for name in persistent:
-            rep.check(name in rwr, 'R10.3', '%s|%s' % (eng, name), locstr(wr[name]), 'member %s is run state (written by step() or another mutator, read by step()) and %s by reset()' % (name, 're-initialised' if name in rwr else 'NOT re-initialised'))
-        rep.sample({'engine': eng, 'persistent': persistent, 'scratch_cleared_at_top': sorted(scratch), 'reset_writes': sorted(rwr)})
+    reset_coverage(rep, fb, 'R10.3')
     rs = fb.fn('uscxml::InterpreterImpl::reset')
     reset_calls = {strip(n['c'][0]['c'][0])['ref']['name'] for n in rs.walk() if n['k'] == 'CXXMemberCallExpr' and n['callee']['q'].split('::')[-1] == 'reset' and n.get('c') and n['c'][0].get('c') and strip(n['c'][0]['c'][0])['k'] == 'MemberExpr'}
     for h in sorted(handles):
